@@ -5,7 +5,7 @@
   Result: (bytes stored into `out`, return value; `none` = (size_t)-1).  Core Lean only.
 -/
 import NngModel.Base.Bytes
-import NngModel.Generated.Consts
+import NngModel.Generated.C16
 namespace Nng.Base64
 
 def encTab (i : Nat) : UInt8 := UInt8.ofNat (Generated.b64EncodeTable.getD i 0)
